@@ -10,7 +10,8 @@ from . import common, rtcommon
 
 BASE = {
     "meta": {"imports": {"al": "gv.test/fix/alpha"}},
-    "parameters": {"host": "%todo(\"host is missing\")%", "port": "%todo()%", "endpoint": "%host%", "url": "http://%host%:%port%/", "plain": 5},
+    "parameters": {"host": "%todo(\"host is missing\")%", "port": "%todo()%", "endpoint": "%host%", "url": "http://%host%:%port%/", "plain": 5,
+                   "m1": "%todo(\"not ready,retry later\")%", "m2": "%todo(\"see step 1 ,then  step 2\")%", "m3": "%todo(\"a,,b\")%", "m4": "x %todo(\"inside, a pattern\")% y"},
     "services": {
         "db": {"todo": True},
         "repo": {"constructor": "NewA", "arguments": ["@db", "%endpoint%"]},
@@ -20,6 +21,7 @@ BASE = {
 }
 OPS = [
     {"op": "param", "name": "host"}, {"op": "param", "name": "endpoint"}, {"op": "param", "name": "url"}, {"op": "param", "name": "port"},
+    {"op": "param", "name": "m1"}, {"op": "param", "name": "m2"}, {"op": "param", "name": "m3"}, {"op": "param", "name": "m4"},
     {"op": "get", "name": "db"}, {"op": "get", "name": "repo"}, {"op": "get", "name": "api"}, {"op": "get", "name": "misc"},
     {"op": "override_param", "name": "host", "kind": "str", "value": "localhost"}, {"op": "override_param", "name": "port", "kind": "int", "value": 8080},
     {"op": "override_param", "name": "plain", "kind": "str", "value": "six"},
@@ -99,7 +101,7 @@ def run(tier, seed, replay):
                 v = cfg["parameters"].get(o["name"])
                 if isinstance(v, str) and v.startswith("%todo(") and ("param", o["name"]) not in overridden:
                     dist["todo_errors"] += 1
-                    msg = "parameter todo" if v == "%todo()%" else v[7:-3]
+                    msg = "parameter todo" if v == "%todo()%" else v[v.index("%todo(\"") + 7:v.rindex("\")%")]
                     if not (line.startswith("E(") and msg in line):
                         out.violation("todo-param-no-error", "GetParam(%s) on a todo parameter returns %s instead of the documented error %r" % (o["name"], line[:200], msg), dict(common.slim(specs[k], obs[k]), history=allh[k]))
             if o["op"] == "get":
